@@ -428,8 +428,12 @@ func (vc *VC) ScriptWith(o *Obligation, style string, extra []string) string {
 	for _, e := range extra {
 		fmt.Fprintf(&b, "(assert %s)\n", e)
 	}
-	fmt.Fprintf(&b, "(assert (not %s))\n", o.Goal.S)
+	fmt.Fprintf(&b, "(define-fun goal!chk () Bool %s)\n", o.Goal.S)
+	b.WriteString("(assert (not goal!chk))\n")
 	b.WriteString("(check-sat)\n")
+	// a `sat` is only believed if the goal is false in the model the solver offers: with recursive
+	// definitions and quantifiers a solver may answer sat from a partial interpretation
+	b.WriteString("(get-value (goal!chk))\n")
 	if len(o.Inputs) > 0 {
 		b.WriteString("(get-value (")
 		for _, in := range o.Inputs {
